@@ -110,7 +110,8 @@ def st_run(draw) -> Dict[str, Any]:
             stations.append({"id": b["station"], "site": b["site"], "plugs": [["LEVEL_2", 2, False]], "fleets": []})
     vehicles = [{"id": f"h{i}", "site": draw(site), "mech": "leaf_50", "soc": draw(st.sampled_from([0.5, 0.9])), "schedule": SCHEDULE_IDS[i],
                  "home_base": draw(st.sampled_from([b["id"] for b in bases])), "fleets": []} for i in range(nh)]
-    vehicles += [{"id": f"a{i}", "site": draw(site), "mech": "leaf_50", "soc": 0.9, "schedule": None, "home_base": None, "fleets": []} for i in range(draw(st.integers(0, 2)))]
+    # autonomous vehicles whose ids sort before, between and after the human-driven ones (vehicles and drivers are stepped in id order)
+    vehicles += [{"id": draw(st.sampled_from(["a{}", "h{}x", "z{}"])).format(i), "site": draw(site), "mech": "leaf_50", "soc": 0.9, "schedule": None, "home_base": None, "fleets": []} for i in range(draw(st.integers(0, 2)))]
     every = draw(st.sampled_from([dt // 2 + 1, dt, 2 * dt + 7, 900]))
     reqs = [{"id": f"r{j}", "o": draw(site), "d": draw(site), "t": start + j * every + 13, "pax": 1, "fleet": None} for j in range(min(400, nsteps * dt // every))]
     return {"dt": dt, "start": start, "nsteps": nsteps, "sites": sites, "schedules": schedules, "bases": bases, "stations": stations, "vehicles": vehicles, "requests": reqs,
